@@ -83,8 +83,35 @@ def kwIs (k : String) : Tok → Bool
 /-- strings.Contains(strings.ToLower(sql), pat) for a pattern made of word characters only. -/
 def hasSub (pat : String) (ts : List Tok) : Bool := ts.any fun t => isInfix (lower t.text) pat.toList
 
+/-- bytes TrimLeft / isWhitespace treat as blank: space, tab, CR, LF -/
+def blank4 (c : Char) : Bool := c == ' ' || c == '\t' || c == '\r' || c == '\n'
+
+def isIdentC (c : Char) : Bool := ('a' ≤ c ∧ c ≤ 'z') || ('A' ≤ c ∧ c ≤ 'Z') || ('0' ≤ c ∧ c ≤ '9') || c == '_'
+
+/-- the name a token shows to patternReadParquetCall after ioDenylistNormalise: bare words as written, quoted
+identifiers whose name is made of identifier bytes only are exposed unquoted, everything else is inert -/
+def normName : Tok → Option (List Char)
+  | .w s => some s
+  | .q s => let u := (if s.length ≥ 2 then (s.drop 1).dropLast else s)
+            let v := (match u with | [] => [] | _ => u)
+            if !v.isEmpty && v.all isIdentC then some v else none
+  | _ => none
+
+def opensParenN : List Tok → Bool
+  | .s _ :: rest | .b _ :: rest | .c _ :: rest => opensParenN rest
+  | .p '(' :: _ => true
+  | _ => false
+
+/-- patternReadParquetCall `(?i)\bread_parquet\s*\(` on the normalised text (since /repo 56228b9) -/
+def hasRPCall : List Tok → Bool
+  | [] => false
+  | t :: rest =>
+    (match normName t with
+      | some n => lower n == "read_parquet".toList && opensParenN rest
+      | none => false) || hasRPCall rest
+
 def shortCircuit (ts : List Tok) : Bool :=
-  hasSub "read_parquet" ts || (!hasSub "from" ts && !hasSub "join" ts)
+  (hasSub "read_parquet" ts && hasRPCall ts) || (!hasSub "from" ts && !hasSub "join" ts)
 
 -- ---------------------------------------------------------------- names
 def skipPrefixes : List String := ["read_parquet", "information_schema", "pg_", "duckdb_"]
@@ -198,14 +225,10 @@ def maskedLen1 : Tok → Bool
   | _ => false
 
 /-- stripSQLComments: a block comment becomes one space, a line comment disappears (its newline stays);
-QUIRK of the source: after a block comment the scanner treats "at most one byte left" as "unterminated",
-so a block comment that closes one byte before the end of the text swallows that last byte. -/
+(the quirk that a block comment closing one byte before the end swallowed that byte is fixed in /repo 168cceb) -/
 def stripC : List Tok → List Tok
   | [] => []
-  | .b _ :: rest =>
-    match rest with
-    | [t] => if maskedLen1 t then [.s [' ']] else .s [' '] :: stripC rest
-    | _ => .s [' '] :: stripC rest
+  | .b _ :: rest => .s [' '] :: stripC rest
   | .c _ :: rest => stripC rest
   | t :: rest => t :: stripC rest
 
@@ -278,12 +301,12 @@ def cteScan : Nat → List Tok → List Key
     | none => cteScan 0 rest
 
 -- ---------------------------------------------------------------- the four reference patterns
-/-- isDotOrCallAt: first byte after optional blanks (space / tab only) is `.` or `(` -/
+/-- isDotOrCallAt: first byte after optional blanks (space, tab, CR, LF since /repo 00bd721) is `.` or `(` -/
 def headDotParen : List Tok → Bool
   | .p c :: _ => c == '.' || c == '('
   | _ => false
 def dotOrCall : List Tok → Bool
-  | .s sp :: r => (sp.dropWhile fun c => c == ' ' || c == '\t').isEmpty && headDotParen r
+  | .s sp :: r => (sp.dropWhile blank4).isEmpty && headDotParen r
   | r => headDotParen r
 
 /-- the checks of the FROM/JOIN simple-table callbacks -/
@@ -375,10 +398,16 @@ def passes (hdr : Option Str) (cte : List Key) (s : List Tok) : List Tok :=
       (scan (fromSimpleAt cte "default".toList) 0 (scan joinDbAt 0 (scan fromDbAt 0 s)))
   | some h => scan (joinSimpleAt cte h) 0 (scan (fromSimpleAt cte h) 0 s)
 
+/-- the CTE registry: the names the regex collects, plus (since /repo 73763cd) the unquoted name of every CTE
+defined with a quoted identifier -/
+def cteReg (s : List Tok) : List Key :=
+  let c := cteScan 0 s
+  c ++ c.filterMap fun k => match k with | .q t => some (Key.w (lower (unquote t))) | _ => none
+
 /-- convertSQLToStoragePaths (hdr = none) / the slow path of convertSQLToStoragePathsWithHeaderDB -/
 def slow (hdr : Option Str) (ts : List Tok) : List Tok :=
   let s := prep ts
-  let cte := cteScan 0 s   -- both paths always extract the CTE names (header path: since /repo 04fa395)
+  let cte := cteReg s   -- both paths always extract the CTE names (header path: since /repo 04fa395)
   unmask (passes hdr cte s)
 
 -- ---------------------------------------------------------------- single-table fast path (header only)
@@ -389,12 +418,9 @@ def countFromSp : List Tok → Nat
       | .s (' ' :: _) :: _ => if endsWith (lower t.text) "from".toList then 1 else 0
       | _ => 0) + countFromSp rest
 
-/-- strings.Contains(sqlLower, " join ") -/
-def hasJoinSp : List Tok → Bool
-  | .s a :: .w j :: .s (' ' :: b) :: rest =>
-    (a.getLast? == some ' ' && lower j == "join".toList) || hasJoinSp (.w j :: .s (' ' :: b) :: rest)
-  | _ :: rest => hasJoinSp rest
-  | [] => false
+/-- patternJoinWord `\bjoin\b` on the lowered text (since /repo d4e5686; before: the substring " join ") -/
+def hasJoinSp (ts : List Tok) : Bool :=
+  ts.any fun t => match t with | .w j => lower j == "join".toList | _ => false
 
 /-- after the first "from ": TrimLeft " \t\n", then `(` ? -/
 def firstFromParen : List Tok → Bool
@@ -403,7 +429,7 @@ def firstFromParen : List Tok → Bool
     match rest with
     | .s (' ' :: sp) :: r =>
       if endsWith (lower t.text) "from".toList then
-        (sp.dropWhile fun c => c == ' ' || c == '\t' || c == '\n').isEmpty && (match r with | .p '(' :: _ => true | _ => false)
+        (sp.dropWhile blank4).isEmpty && (match r with | .p '(' :: _ => true | _ => false)
       else firstFromParen rest
     | _ => firstFromParen rest
 
@@ -461,11 +487,12 @@ def fastGo (h : Str) : List Tok → Option (List Tok)
     match rest with
     | .s (' ' :: sp) :: r =>
       if endsWith (lower t.text) "from".toList then
-        if !(sp.dropWhile fun c => c == ' ' || c == '\t' || c == '\n').isEmpty then none else
+        if !(sp.dropWhile blank4).isEmpty then none else
         match r with
         | nm :: r' =>
           match identRun nm with
           | some name =>
+            if dotOrCall r' then none else   -- since /repo 7134395: table functions / qualified names left alone
             if shouldSkip (lower name) then none else
             let pre := t.text.take (t.text.length - 4)
             some ((if pre.isEmpty then [] else [Tok.w pre]) ++ [.rpF h name] ++ r')
